@@ -57,8 +57,11 @@ esac
 exit "$st"
 `
 
+// saySrc prints its first argument and a newline: a captured call of it yields that argument as a value.
+const saySrc = "#!/bin/bash\nprintf '%s\\n' \"$1\"\n"
+
 func boxFiles() map[string]string {
-	return map[string]string{"p1": probeSrc, "p2": probeSrc, "p3": probeSrc, "x": "decoy: a one-letter file name so that ? and * have something to match\n", "log/.keep": ""}
+	return map[string]string{"p1": probeSrc, "p2": probeSrc, "p3": probeSrc, "say": saySrc, "x": "decoy: a one-letter file name so that ? and * have something to match\n", "log/.keep": ""}
 }
 
 func logLine(args []string) string {
@@ -102,7 +105,7 @@ var argNames = []string{"a", "empty", "b_c", "lead", "star", "qmark", "semi", "d
 var argValue = map[string]string{"a": "a", "empty": "", "b_c": "b c", "lead": " lead", "star": "*", "qmark": "?", "semi": "a;b",
 	"dollar": "$HOME", "dq": `"q"`, "sq": "'q'", "dashn": "-n", "bslash": `\`, "b__c": "b  c", "trail": "t  ", "tab": "x\ty"}
 
-var origins = []string{"literal", "var", "concat", "call"}
+var origins = []string{"literal", "var", "concat", "call", "capture"}
 
 // Arg is one argument of a stage.
 type Arg struct {
@@ -140,6 +143,9 @@ func exprOf(a Arg, id string, pre *[]string, needID *bool) string {
 	case "call":
 		*needID = true
 		return "id(" + tsQuote(a.Value) + ")"
+	case "capture":
+		// the standard output of another command call, captured in the same statement
+		return "@\"./say\"(" + tsQuote(a.Value) + ")"
 	}
 	return tsQuote(a.Value)
 }
@@ -466,7 +472,11 @@ func upstream(a Arg) bool {
 	for _, p := range pre {
 		sb.WriteString(p + "\n")
 	}
-	sb.WriteString("w := " + e + "\nprint(\"[\", w, \"]\")\n")
+	if a.Origin == "capture" {
+		sb.WriteString("w, we, wc := " + e + "\nprint(\"[\", w, \"]\")\n")
+	} else {
+		sb.WriteString("w := " + e + "\nprint(\"[\", w, \"]\")\n")
+	}
 	tr := drive.TranspileSrc(sb.String(), drive.Bash)
 	if !tr.OK() {
 		return true
